@@ -2,16 +2,42 @@
 From WI Require Import Lib.Base Lib.Info Model.Determinism.
 Open Scope N_scope.
 
-(* The model of "the same input inspected again": a function of name and content, so the set
+(* A case: input = (name content first-output label-of-the-first-run); the implementation's
+   observation = the DISTINCT outputs of all runs of that input in order of first appearance,
+   each with the label of the first run that produced it (repetition number; GOMAXPROCS and
+   goroutine; environment of the process): ((output label) ...).
+
+   The model of "the same input inspected again": a function of name and content, so the list
    of distinct outputs is the singleton holding the first output (recorded in the input). *)
 Definition run_C04 (op : bytes) (input : arg) : arg :=
-  AL [AB (arg_bytes (arg_nth 2 input))].
+  AL [AL [AB (arg_bytes (arg_nth 2 input)); AB (arg_bytes (arg_nth 3 input))]].
+
+(* Spec checker: the property itself on what the implementation printed.  All runs of one
+   (name, content) must have produced the same bytes, whatever the repetition, the goroutine,
+   the number of processors, the process or its environment.  Independent of the model: it
+   looks only at the observation. *)
+Definition obs_output (x : arg) : option bytes :=
+  match x with
+  | AL [AB o; _] => Some o
+  | _ => None
+  end.
+
+Definition all_same_output (first : bytes) (rest : list arg) : bool :=
+  forallb (fun x => match obs_output x with Some o => bytes_eqb o first | None => false end) rest.
 
 Definition check_C04 (op : bytes) (input impl : arg) : arg :=
   match impl with
-  | AL [_] => AL []
   | AL [] => AS "no output observed"
-  | _ => if bytes_eqb op (bs "repeat")
-         then AS "the same content under the same name produced different output in one process (map iteration order?)"
-         else AS "the same content under the same name produced different output under a different TZ / locale / working directory"
+  | AL (x :: rest) =>
+      match obs_output x with
+      | None => AS "malformed observation"
+      | Some first =>
+          if all_same_output first rest then AL []
+          else if bytes_eqb op (bs "repeat")
+          then AS "the same content under the same name produced different output in one process (map iteration order? state left by an earlier inspection?)"
+          else if bytes_eqb op (bs "conc")
+          then AS "the same content under the same name produced different output when inspected from several goroutines / with a different GOMAXPROCS (completion order of concurrent work?)"
+          else AS "the same content under the same name produced different output in another process or environment (TZ / locale variables / cwd / HOME / TERM / GOMAXPROCS / GODEBUG / umask / kind of stdout: see the labels)"
+      end
+  | _ => AS "malformed observation"
   end.
